@@ -221,7 +221,7 @@ pub fn run(tier: Tier, seed: u64) -> i32 {
             return 2;
         }
     };
-    let n_jobs = tier.pick(640usize, 3200);
+    let n_jobs = tier.pick(640usize, 9600);
     let ep_total = EP_ALPHABET.len() + EP_ALPHABET.len().pow(2) + EP_ALPHABET.len().pow(3);
     let ep_jobs = 32usize;
     let results = par::par_map(n_jobs + 1 + ep_jobs, |j| {
